@@ -754,10 +754,12 @@ def r_local(E):
     for q in ("ModelingUpdate.compute_hourly_quantities_to_filter", "ModelingUpdate.filter_hourly_quantities_to_filter"):
         rel, fn = pm.find_function(MU, q)
         res.instances += 1
+        from ..astutil import nodes_through_helpers as _nthm
+        _mu_nodes = _nthm(fn, pm.helper_finder("ModelingUpdate"), depth=2)      # (the per-value step may be a helper, map()ped)
         naive_test = any(isinstance(n, ast.Compare) and isinstance(n.ops[0], (ast.Is, ast.IsNot)) and isinstance(n.left, ast.Attribute)
-                         and n.left.attr in ("tz", "tzinfo") for n in ast.walk(fn))
+                         and n.left.attr in ("tz", "tzinfo") for n in _mu_nodes)
         uses_zone = any(isinstance(n, ast.Attribute) and n.attr == "timezone" and isinstance(n.value, ast.Attribute)
-                        and n.value.attr == "country" for n in ast.walk(fn))
+                        and n.value.attr == "country" for n in _mu_nodes)
         if not (naive_test and uses_zone):
             res.findings.append(Finding("R-LOCAL", f"{q} naive index", f"{q} no longer localises a naive (local-time) "
                                         f"index with the pattern's country time zone before comparing it with the "
